@@ -54,6 +54,9 @@ type FreeCfg struct {
 	Answered   int   // with Fault: number of requests answered completely before the fault
 	LateCalls  int   // calls made after the failure by caller 1
 	TagMode    bool  // callers use the pipelined Tag interface (one Tag each)
+	FullyRead  int   // Fault "halfclose": requests the peer reads completely; the next one is left mid-write
+	Coalesce   bool  // replies are queued and handed to the client in chunks that span frame boundaries
+	BigReads   bool  // read counts up to nearly msize (so that the 8*msize receive buffer wraps mid-frame)
 }
 
 type Free struct {
@@ -75,6 +78,9 @@ type Free struct {
 	nAnswered int
 	failed  bool
 	tagOrder map[int][]int // TagMode: completion order of indices per caller
+	outq     []byte // Coalesce: reply bytes not yet handed to the client
+	queued   int    // Coalesce: reply-stream bytes produced so far
+	flushAt  int
 }
 
 func (f *Free) viol(key, msg string) {
@@ -114,6 +120,9 @@ func (f *Free) mkOp(k, i int) *Op {
 			o.Fid = uint32(1<<20 + k*100000 + i)
 		default:
 			o.Count = uint32(12 + r.Intn(200))
+			if f.cfg.BigReads {
+				o.Count = uint32(12 + r.Intn(Msize-40))
+			}
 		}
 	}
 	return o
@@ -211,6 +220,43 @@ func (f *Free) do(o *Op) {
 	}
 }
 
+// ingest feeds bytes the client wrote to the framer and decodes complete requests.
+func (f *Free) ingest(b []byte) {
+	f.fr.Feed(b)
+	for {
+		fr, err := f.fr.Next()
+		if err != nil {
+			f.viol("peer-bad-frame", "the client sent an unframeable byte stream: "+err.Error())
+			return
+		}
+		if fr == nil {
+			return
+		}
+		m, derr := wire.Decode(fr, f.cfg.Dotu)
+		if derr != nil {
+			f.viol("peer-bad-request", "independent decoder rejects a request: "+derr.Error())
+			continue
+		}
+		q := &PReq{Seq: len(f.seen) + 1, Msg: m}
+		id := IdentOf(m)
+		f.mu.Lock()
+		f.seen = append(f.seen, q)
+		f.pending = append(f.pending, q)
+		f.reqOf[id] = q
+		dup := ""
+		if !f.cfg.TagMode {
+			if other, ok := f.out[m.Tag]; ok {
+				dup = fmt.Sprintf("tag %d arrives with request %v while request %v is outstanding with it", m.Tag, id, other)
+			}
+			f.out[m.Tag] = id
+		}
+		f.mu.Unlock()
+		if dup != "" {
+			f.viol("duplicate-tag", dup)
+		}
+	}
+}
+
 // takeAll drains what the sender is writing and decodes complete requests.
 func (f *Free) takeAll() {
 	for f.conn.Writing() {
@@ -218,38 +264,29 @@ func (f *Free) takeAll() {
 		if b == nil {
 			return
 		}
-		f.fr.Feed(b)
-		for {
-			fr, err := f.fr.Next()
-			if err != nil {
-				f.viol("peer-bad-frame", "the client sent an unframeable byte stream: "+err.Error())
-				return
-			}
-			if fr == nil {
-				break
-			}
-			m, derr := wire.Decode(fr, f.cfg.Dotu)
-			if derr != nil {
-				f.viol("peer-bad-request", "independent decoder rejects a request: "+derr.Error())
-				continue
-			}
-			q := &PReq{Seq: len(f.seen) + 1, Msg: m}
-			id := IdentOf(m)
-			f.mu.Lock()
-			f.seen = append(f.seen, q)
-			f.pending = append(f.pending, q)
-			f.reqOf[id] = q
-			if !f.cfg.TagMode {
-				if other, dup := f.out[m.Tag]; dup {
-					f.mu.Unlock()
-					f.viol("duplicate-tag", fmt.Sprintf("tag %d arrives with request %v while request %v is outstanding with it", m.Tag, id, other))
-					f.mu.Lock()
-				}
-				f.out[m.Tag] = id
-			}
-			f.mu.Unlock()
-		}
+		f.ingest(b)
 		synctest.Wait()
+	}
+}
+
+// flush hands queued reply bytes to the client in chunks of arbitrary size (a chunk may hold
+// several replies and end in the middle of one; a chunk larger than the room left in the client's
+// buffer is consumed by consecutive Reads). Unless all is set it may stop early.
+func (f *Free) flush(all bool) {
+	for len(f.outq) > 0 {
+		n := 1 + f.rng.Intn(len(f.outq))
+		if f.rng.Intn(2) == 0 && n > 700 {
+			n = 1 + f.rng.Intn(700)
+		}
+		if !f.conn.Deliver(f.outq[:n]) {
+			f.outq = nil
+			return
+		}
+		f.sent += n
+		f.outq = f.outq[n:]
+		if !all && f.rng.Intn(3) == 0 {
+			return
+		}
 	}
 }
 
@@ -282,6 +319,15 @@ func (f *Free) answer(q *PReq, kind string, limit int) bool {
 	delete(f.out, q.Msg.Tag)
 	f.mu.Unlock()
 	b := Answer(q.Msg, kind, f.cfg.Dotu)
+	if f.cfg.Coalesce {
+		f.outq = append(f.outq, b...)
+		f.queued += len(b)
+		f.mu.Lock()
+		q.End = f.queued
+		f.mu.Unlock()
+		f.nAnswered++
+		return true
+	}
 	end := f.sent + len(b)
 	ok := f.deliver(b, limit)
 	if ok {
@@ -334,6 +380,7 @@ func RunFree(t *testing.T, cfg FreeCfg) (ff *Free) {
 	f := &Free{cfg: cfg, rng: rand.New(rand.NewSource(cfg.Seed)), byIdent: map[Ident]*Op{}, reqOf: map[Ident]*PReq{},
 		out: map[uint16]Ident{}, Viol: map[string]string{}, tagOrder: map[int][]int{}}
 	ff = f
+	f.flushAt = f.rng.Intn(3 * BufSize / 2)
 	Progress()
 	defer func() {
 		if r := recover(); r != nil {
@@ -344,7 +391,9 @@ func RunFree(t *testing.T, cfg FreeCfg) (ff *Free) {
 	}()
 	synctest.Test(t, func(t *testing.T) {
 		f.conn = NewSConn()
-		if cfg.PartialWr {
+		if cfg.Fault == "halfclose" {
+			f.conn.MaxWrite = func(n int) int { return min(n, 9) }
+		} else if cfg.PartialWr {
 			var pm sync.Mutex
 			prng := rand.New(rand.NewSource(cfg.Seed + 99))
 			f.conn.MaxWrite = func(n int) int { pm.Lock(); defer pm.Unlock(); return 1 + prng.Intn(n) }
@@ -423,6 +472,10 @@ func (f *Free) settle() {
 // peerLoop is the scripted peer, run by the test goroutine.
 func (f *Free) peerLoop(late chan struct{}) {
 	cfg := f.cfg
+	if cfg.Fault == "halfclose" {
+		f.halfClose(late)
+		return
+	}
 	if cfg.Order != nil || cfg.Fault != "" {
 		// scripted session: collect the first round, answer, inject the fault, release late calls
 		f.settle()
@@ -457,6 +510,13 @@ func (f *Free) peerLoop(late chan struct{}) {
 		if len(f.pending) > 0 && (quiet || len(f.pending) >= cfg.Window) {
 			q := f.pickPending()
 			f.answer(q, f.kindFor(IdentOf(q.Msg)), -1)
+			if len(f.outq) > f.flushAt {
+				f.flush(false)
+			}
+			continue
+		}
+		if quiet && len(f.outq) > 0 {
+			f.flush(true)
 			continue
 		}
 		if !quiet {
@@ -467,6 +527,45 @@ func (f *Free) peerLoop(late chan struct{}) {
 		}
 		f.Hang = "quiescent, the peer owes no answer, and calls have not returned"
 		return
+	}
+}
+
+// halfClose: the peer reads FullyRead requests completely and a first piece of the next one,
+// answers Answered of them, then ends its sending direction and reads nothing more: the client's
+// Read reports EOF while its writer is blocked in Write. Every call must still return.
+func (f *Free) halfClose(late chan struct{}) {
+	cfg := f.cfg
+	for len(f.seen) < cfg.FullyRead {
+		synctest.Wait()
+		if !f.conn.Writing() {
+			f.Hang = fmt.Sprintf("quiescent with %d of %d requests at the peer", len(f.seen), cfg.FullyRead)
+			return
+		}
+		f.ingest(f.conn.Take())
+	}
+	synctest.Wait()
+	if cfg.FullyRead < cfg.Callers && f.conn.Writing() {
+		f.ingest(f.conn.Take()) // a first piece only: the writer stays blocked with the rest
+		synctest.Wait()
+	}
+	reqs := append([]*PReq(nil), f.pending...)
+	f.pending = nil
+	for i, j := range f.rng.Perm(len(reqs)) {
+		if i >= cfg.Answered {
+			break
+		}
+		f.answer(reqs[j], f.kindFor(IdentOf(reqs[j].Msg)), -1)
+	}
+	f.mu.Lock()
+	f.failed = true
+	f.mu.Unlock()
+	f.conn.EOF()
+	if cfg.LateCalls > 0 {
+		close(late)
+	}
+	synctest.Wait()
+	if !f.allReturned() {
+		f.Hang = "quiescent after the peer ended its sending direction and stopped reading, with calls that have not returned"
 	}
 }
 
@@ -494,6 +593,13 @@ func (f *Free) scriptedRound(limit int) {
 		if !f.answer(q, f.kindFor(IdentOf(q.Msg)), limit) {
 			break
 		}
+	}
+	if cfg.Coalesce {
+		// everything answered so far goes out in one piece (the client's Reads cut it where its buffer ends)
+		if len(f.outq) > 0 && f.conn.Deliver(f.outq) {
+			f.sent += len(f.outq)
+		}
+		f.outq = nil
 	}
 	switch {
 	case cfg.Fault == "":
